@@ -537,7 +537,7 @@ def run_check(prop, tier, seed, meta, instances, build, level='model_checking', 
     # a time-out under load says nothing about the code: non-optional instances without a verdict get one more run, alone (4 at a time)
     # and with twice the budget, before they are reported as inconclusive
     redo = [r['name'] for r in results if r['status'] == 'INCONCLUSIVE' and not byname[r['name']].optional and 'timeout' in (r.get('detail') or '')]
-    if redo and len(redo) <= 24:
+    if redo and len(redo) <= 24 and not (budget and time.time() - t0 > budget):
         for n in redo:
             byname[n].timeout *= 2
         with ThreadPoolExecutor(4) as ex:
